@@ -155,7 +155,8 @@ theorem uninlinable_left (st : List Frame) (ps : List String) (b : Expr) (args :
     (kwn : List String) (kwv : List Expr) (h : ps.length ≠ args.length) :
     resolveCalled st (.call (.lam ps b) args kwn kwv) =
       .call (.lam (hideRename st ps (allNames b)).1 (resolveCalled ((hideRename st ps (allNames b)).2 :: st) b))
-        (resolveCalledL st args) kwn (resolveCalledL st kwv) := by
+        (resolveCalledL st args) (kwn.map (fun k => ((ps.zip (hideRename st ps (allNames b)).1).lookup k).getD k))
+        (resolveCalledL st kwv) := by
   simp [resolveCalled, h]
 
 /-! ### capture avoidance -/
